@@ -270,7 +270,9 @@ impl Codec {
     pub fn encode_int(&self, x: i64) -> i64 {
         if let CodecOp::Add(_, y) = self.ops[0] {
             assert_eq!(self.ops.len(), 1);
-            x - y
+            // Encoded values are unsigned 8/16/32 bit integers, so a constant whose encoding would fall
+            // outside of i64 compares the same way as the saturated value (and `x - y` would overflow).
+            x.saturating_sub(y)
         } else if let CodecOp::ToI64(_) = self.ops[0] {
             assert_eq!(self.ops.len(), 1);
             x
